@@ -40,6 +40,7 @@ import PyYetiVerif.Props.C01Exp
 #print axioms PyYetiVerif.C01.decoupled_recovers
 #print axioms PyYetiVerif.C01.coupled_step_exact
 #print axioms PyYetiVerif.C01.coupled_run_exact
+#print axioms PyYetiVerif.C01.sol2R_exists
 #print axioms PyYetiVerif.C01.delconj_recovers
 #print axioms PyYetiVerif.C01.coupled_run_exact_real
 #print axioms PyYetiVerif.C01.oscKept_spec
